@@ -760,8 +760,11 @@ func c01R3(p *Prog, r *Report) {
 	r.Floor(rule, 19)
 }
 
-func c01R4(p *Prog, r *Report) {
-	const rule = "C01-R4"
+func c01R4(p *Prog, r *Report) { c01R4as(p, r, "C01-R4") }
+
+// c01R4as registers the copy-loop accounting rule under the given id (shared with C13: the relay's
+// copy goes through these loops whenever one side is an SS2022 tunnel).
+func c01R4as(p *Prog, r *Report, rule string) {
 	r.Rule(rule, "copy-loop accounting and end-of-stream: a loop that reads from a generic io.Reader forwards the bytes returned together with an error before acting on the error; io.EOF becomes a clean end only when it is the error of that iteration's own read; Write/ReadFrom/WriteTo advance their buffers and byte counts by exactly the chunk they forwarded")
 	pkg := p.Pkg("ss2022")
 	p.AllFuncs(pkg, func(fc *FuncCtx) {
